@@ -237,11 +237,13 @@ pub fn minimise(check: &dyn Check, case: &Value, class: &str, shape: &Option<Str
     let mut cur = case.clone();
     let mut steps = 0usize;
     let mut improved = true;
+    // minimisation is a convenience: bounded in executions and in wall-clock time
+    let started = Instant::now();
     while improved && steps < max_steps {
         improved = false;
         for cand in check.shrink(&cur) {
             steps += 1;
-            if steps >= max_steps {
+            if steps >= max_steps || started.elapsed().as_secs() > 90 {
                 break;
             }
             let v = check.execute(&cand);
